@@ -92,6 +92,18 @@ def pick_args(rnd, n):
     return start, step
 
 
+def _prelim(o, pre, start, step):
+    """an earlier resequence on the same object (so that the previous numbers are the ones a renumbering left)"""
+    if pre:
+        pre = tuple(pre)
+        try:
+            last0 = o.resequence(*pre)
+            if pre == (start, step) and isinstance(last0, int) and 0 < last0 <= MAXS:
+                o.resequence(last0, step if step >= 1 else 1)
+        except Exception:  # noqa
+            pass
+
+
 def correspond(ctx):
     ca = core.impl_module()
     rnd = random.Random(ctx.seed)
@@ -111,14 +123,7 @@ def correspond(ctx):
         meta = {"k": kind, "platform": plat, "tree": t, "start": start, "step": step, "dup": dup, "pre": pre}
 
         def run(kind=kind, t=t, plat=plat, start=start, step=step, dup=dup, pre=pre):
-            def prelim(o):
-                if pre:
-                    try:
-                        last0 = o.resequence(*pre)
-                        if pre == (start, step) and isinstance(last0, int) and 0 < last0 <= MAXS:
-                            o.resequence(last0, step if step >= 1 else 1)
-                    except Exception:  # noqa
-                        pass
+            prelim = lambda o: _prelim(o, pre, start, step)
             if kind == "acl":
                 o = build_acl(ca, plat, t, rnd, dup)
                 prelim(o)
@@ -166,9 +171,12 @@ def oracle(ctx, kernel, meta):
         if meta["k"] == "addrgroup":
             lines = [f"host 10.2.{e[2] % dup if dup else e[2]}.1" for e in t] or ["host 10.2.0.1"]
             o = ca.AddrGroup(name="G", items=lines, platform=plat)
+            for x, e in zip(o.items, t):
+                x.sequence = e[1]
         else:
-            lines = [f"permit ip host 10.1.{e[2] % dup if dup else e[2]}.1 any" for e in t]
+            lines = [(f"{e[1]} " if e[1] else "") + f"permit ip host 10.1.{e[2] % dup if dup else e[2]}.1 any" for e in t]
             o = ca.AceGroup(items=lines, platform=plat) if lines else ca.AceGroup(platform=plat)
+        _prelim(o, meta.get("pre"), start, step)
         try:
             last = o.resequence(start, step)
         except Exception:  # noqa
@@ -180,11 +188,7 @@ def oracle(ctx, kernel, meta):
         return None
     rnd = random.Random(1)
     acl = build_acl(ca, plat, t, rnd, meta.get("dup", 0))
-    if meta.get("pre"):
-        try:
-            acl.resequence(*meta["pre"])
-        except Exception:  # noqa
-            pass
+    _prelim(acl, meta.get("pre"), start, step)
     before = [o.line.split(" ", 1)[1] if o.sequence else o.line for o in _flat(acl)]
     n = nleaves(t)
     try:
